@@ -203,7 +203,10 @@ def run(ctx):
     attach(r3, pst, only={'pass:flagdying-iff-age>lifetime'})
     dd = qsend.analyse_del_dochan(db, rep)
     attach(r3, dd, only={'del:DONE-only-for-K-or-D-(Z-when-expired)', 'del:bounce-only-for-D-(Z-when-expired)', 'del:K/D-reports-are-marked'})
-    r3.expect_min(4)
+    from rules import C14 as _c14c
+    v_ = _c14c.control_value_sites(db, rep)['controls:queuelifetime-is-taken-as-written(0-included)']
+    r3.check(v_[0], 'controls:queuelifetime-is-taken-as-written(0-included)', v_[1], v_[2], v_[3])
+    r3.expect_min(5)
 
     r4 = rep.rule('C15.4-ALRM-and-restart', 'R-ORDER', 'ALRM: handler sets flagrunasap, the loop calls pqrun before computing the wake-up, pqrun makes every channel entry due; shutdown saves each entry\'s time in its channel file\'s mtime and pqadd reads it back')
     sa = prog.fn('sigalrm', 'qmail-send.c')
